@@ -442,6 +442,8 @@ def gen_program(st, flavour, tier):
                 nd["req"] = nd["req"] + [nd["req"][0]]      # the same dependency listed twice
             if t == "plain" and prev and rp_.random() < 0.3:
                 nd["implicit"] = rp_.sample(prev, 1)         # class-level requires of the component type
+            if t == "plain" and prev and rp_.random() < 0.25:
+                nd["implicit_opt"] = rp_.sample(prev, 1)     # class-level optional of the component type
         # ---- fault plan
         if t != "rp" and rf.random() < fl["fault"]:
             kinds = ["skip", "skip", "boom", "verr", "kerr", "none", "ce", "cpe", "cpe", "zero", "emptystr"]
@@ -641,6 +643,7 @@ def deps_of(nd):
             out.extend(d)
         else:
             out.append(d)
+    out.extend(nd.get("implicit_opt") or [])       # self.optional = class-level optional + the decorator's optional=
     out.extend(nd["opt"])
     return out
 
@@ -1057,9 +1060,11 @@ class World(object):
                     if nd["rspec"].get("content") is not None:
                         kw["content"] = nd["rspec"]["content"]
                 ctype = TYPES[t]
-                if nimp:
-                    # a component type with implicit (class-level) requirements, as third-party types declare them
-                    ctype = type("plainct_implicit", (plainct,), {"requires": [objs[j] for j in nd["implicit"]]})
+                if nimp or nd.get("implicit_opt"):
+                    # a component type with implicit (class-level) requirements / optional dependencies, as third-party
+                    # types declare them
+                    ctype = type("plainct_implicit", (plainct,), {"requires": [objs[j] for j in nd.get("implicit") or []],
+                                                                 "optional": [objs[j] for j in nd.get("implicit_opt") or []]})
                 ctype(*deps, **kw)(g)
         self.objs = objs
         self.idx = dict((o, i) for i, o in enumerate(objs))
@@ -1697,6 +1702,8 @@ def remove_node(case, k):
         nd["opt"] = remap(nd["opt"])
         if nd.get("implicit"):
             nd["implicit"] = remap(nd["implicit"])
+        if nd.get("implicit_opt"):
+            nd["implicit_opt"] = remap(nd["implicit_opt"])
         if nd["type"] == "rp":
             nd["impls"] = remap(nd["impls"])
             nd["late"] = min(nd.get("late", 0), max(0, len(nd["impls"]) - 1))
